@@ -34,10 +34,16 @@ STMTS = [
     ("call s(x) ! call p(x)", {"s"}),
     ("if (.not. p(x)) goto 100\n100 continue", {"p"}),
     ("IF (h(i) /= 0) GO TO 200\n200 continue", {"h"}),
-    ("call app%log%reset()", {"reset"}),
-    ("call app%log%emit(f(x))", {"emit", "f"}),
-    ("if (p(x)) call app%log%reset()", {"p", "reset"}),
-    ("x = app%log%level(i)", {"level"}),
+    ("call app%log%reset()", {"logger%reset"}),
+    ("call app%log%emit(f(x))", {"logger%emit", "f"}),
+    ("if (p(x)) call app%log%reset()", {"p", "logger%reset"}),
+    ("x = app%log%level(i)", {"logger%level"}),
+    ("call app%reset()", {"application%reset"}),
+    ("associate (obj => app)\n    associate (obj => app%log)\n    call obj%reset()\n    end associate\n    end associate", {"logger%reset"}),
+    ("associate (obj => app%log)\n    associate (obj => app)\n    call obj%reset()\n    end associate\n    call obj%reset()\n    end associate", {"application%reset", "logger%reset"}),
+    ("print *, \"don't\"; call s(x)", {"s"}),
+    ("print *, \"don't panic\"; y = len('usage: run; call p(x)')", set()),
+    ("print *, 'a 3\" pipe'; x = f(y)", {"f"}),
 ]
 USER = {"f", "g", "h", "p", "s", "reset", "emit", "level"}
 
@@ -51,7 +57,8 @@ def program(stmts):
     funcs += "  function p(v) result(r)\n    real :: v\n    logical :: r\n    r = .true.\n  end function p\n"
     funcs += "  subroutine s(v)\n    real, optional :: v\n  end subroutine s\n"
     types = ("  type :: logger\n  contains\n    procedure :: reset\n    procedure :: emit\n    procedure :: level\n  end type logger\n"
-             "  type :: application\n    type(logger) :: log\n  end type application\n")
+             "  type :: application\n    type(logger) :: log\n  contains\n    procedure :: reset => app_reset\n  end type application\n")
+    funcs += "  subroutine app_reset(self)\n    class(application) :: self\n  end subroutine app_reset\n"
     funcs += "  subroutine reset(self)\n    class(logger) :: self\n  end subroutine reset\n"
     funcs += "  subroutine emit(self, v)\n    class(logger) :: self\n    real :: v\n  end subroutine emit\n"
     funcs += "  function level(self, k) result(r)\n    class(logger) :: self\n    integer :: k\n    real :: r\n    r = 0.0\n  end function level\n"
@@ -77,7 +84,13 @@ def search():
         except Exception as e:
             return {"confirmed": True, "input": {"source": text}, "actual": f"{type(e).__name__}: {e}", "expected": sorted(exp), "how": "real pipeline"}
         drv = [p for p in proj.modules[0].subroutines if p.name == "driver"][0]
-        act = [(c if isinstance(c, str) else c.name).lower() for c in drv.calls]
+        def label(c):
+            if isinstance(c, str):
+                return c.lower()
+            if type(c).__name__ == "FortranBoundProcedure":
+                return f"{c.parent.name}%{c.name}".lower()
+            return c.name.lower()
+        act = [label(c) for c in drv.calls]
         if sorted(act) != sorted(exp):
             return {"confirmed": True, "input": {"source": text, "statements": [s for s, _ in group]}, "actual": sorted(act), "expected": sorted(exp),
                     "how": "driver.calls after Project.correlate() vs the user procedures invoked by construction (each once)"}
